@@ -43,6 +43,9 @@ B06 = [
     "CC=O>>CCO",                                           # rule-based, the same molecule once
     "ClCCCl.[O-]CC[O-]>>C1COCCO1",                         # rule-based: missing {Cl:2, Q:-2}
     "CC=CC>>CC(Cl)C(Cl)C",                                 # rule-based: missing {Cl:2} - same atoms, no charge
+    # a pair that ends with the same product-side text: here Cl2 is GIVEN and the completion goes to the reactants ...
+    "ClC#CCl.ClCl>>ClC=CCl.ClCl",
+    "ClC(Cl)C(Cl)Cl>>ClC=CCl",                             # ... here the rule search would ADD Cl2 (banned addition)
 ]
 EXTRA = "CCN(CC)CC.CC(=O)Cl.OCc1ccccc1>>CC(=O)OCc1ccccc1"  # mcs with catalyst pass-through
 SCHED_BATCHES = [
@@ -437,7 +440,7 @@ def run(tier, seed):
         "real_joblib_worker_counts": list(ks),
         "evaluations": n_exec + len(subs) + len(pj) + len(reps) + len(bj),
         "distinct_nontrivial": len(subs) + n_exec,
-        "rule": "(a) every ordered sub-batch of size 1..2{}, batches that repeat a reaction (x,x / x,x,y / x,y,x / y,x,x) (triples and 3..5-tuples of MCS-bound reactions also with n_jobs 2 and 3) of the 16-reaction base set, the 17-reaction set under every "
+        "rule": "(a) every ordered sub-batch of size 1..2{}, batches that repeat a reaction (x,x / x,x,y / x,y,x / y,x,x) (triples and 3..5-tuples of MCS-bound reactions also with n_jobs 2 and 3) of the 18-reaction base set, the 19-reaction set under every "
                 "batch size; (b) for 3 batches of 3 rows every Parallel call x every non-default task order "
                 "(all 3! orders) with <= {} order deviation(s) x isolation {} (two deviations: inline for every batch and per-task copies for the first batch; one deviation otherwise); (c) real joblib with n_jobs in {}; "
                 "(d) repeated runs on one instance; (e) {} ring-forming/-opening multi-reactant probes, two at a time, alone / inside one batch with n other distinct reactions (n in {}) / alone again on one fresh Balancer.  distinct_outcomes = distinct row tables seen over all schedules "
